@@ -10,6 +10,9 @@ mod conc;
 mod lpg;
 mod adj;
 mod snap;
+mod vals;
+mod codec;
+mod pcol;
 mod q;
 mod qmeta;
 mod txstress;
@@ -34,6 +37,9 @@ fn main() {
         "lpg" => lpg::main(&opts),
         "adj" => adj::main(&opts),
         "snap" => snap::fidelity(&opts),
+        "vals" => vals::main(&opts),
+        "codec" => codec::main(&opts),
+        "pcol" => pcol::main(&opts),
         "snapfault" => snap::faults(&opts),
         "q" => q::main(&opts),
         "qprobe" => q::probe(&opts),
